@@ -57,7 +57,6 @@ structure Tbl where
   parseForStmt : P Statement
 
 def Tbl.parameters (r : Tbl) : P FieldList := r.paramsList .ParenLeft .ParenRight
-def Tbl.typeParameters (r : Tbl) : P FieldList := r.paramsList .BarackLeft .BarackRight
 
 /-- a `while cond { body }` loop with fuel; `body` returns `true` to continue -/
 def whileLoop (step : P Bool) : Nat → P Unit
@@ -190,7 +189,7 @@ def parseTypeSpecBody (r : Tbl) : P TypeSpec := do
     let some (pname, ptype) := extract x (← currentIs Operator.Comma) | throw (.panic "extract lost")
     if pname.isSome && (ptype.isSome || !(← currentIs Operator.BarackRight)) then
       goback start
-      let params ← r.typeParameters
+      let params ← (·.1) <$> r.parseTypeParameters
       let alias ← skipped Operator.Assign
       let typ ← r.type_
       return .mk docs alias name params typ
@@ -633,15 +632,20 @@ def parseSliceIndexOrTypeInstBody (r : Tbl) : P (Option Operator × List (Option
     return (if colon > 0 then some .Colon else none, index)
   match ← current with
   | some (_, .operator .Comma) => do
+    if colon ≠ 0 then
+      let cur ← takeCurrent
+      unexpected [Operator.Colon, Operator.Comma] cur "slice"
     let rec go : Nat → List (Option Expression) → P (List (Option Expression))
       | 0, _ => throw .fuel
       | fuel+1, acc => do
         if ← skipped Operator.Comma then
-          let e ← r.parseNextLevelExpr
-          go fuel (acc ++ [some e])
+          if ← currentIs Operator.BarackRight then pure acc   -- a trailing comma
+          else
+            let e ← r.parseNextLevelExpr
+            go fuel (acc ++ [some e])
         else pure acc
     let index2 ← go (← loopFuel) index
-    return (some .Comma, index2)
+    return (if index2.length > 1 then some .Comma else none, index2)
   | some (_, .operator .Colon) => do
     next
     if ← currentIs Operator.BarackRight then return (some .Colon, index)
